@@ -1,2 +1,42 @@
-From Coq Require Import ZArith List Bool.
-From KioV Require Import Schema.Raw Schema.Coherence.
+(* C13 - every entity is self-describing and coherent.  Per-tree instance theorem:
+   inst/InstC13.v (c13_ok shipped n = true over all 1629 classes / 5094 fields).  Here: what it
+   gives - a reader plan and a writer plan exist for every class, derived from the description
+   alone by the Gallina rendering of kio's introspection, and the environment of plans is
+   well-formed, which is the hypothesis of the codec theorems C01-C07, C10. *)
+From Coq Require Import ZArith List Bool String Lia.
+From KioV Require Import Base.Res Codec.Value Codec.Reader Codec.Writer Schema.Raw Schema.Introspect Codec.Typed
+  Schema.Coherence Codec.RoundtripProofs.
+Import ListNotations.
+
+Lemma all_ok_nth {A} (l : list (res A)) : all_ok l = true ->
+  forall i, (i < List.length l)%nat -> exists a, nth_error l i = Some (Ok a).
+Proof.
+  unfold all_ok. intros H i Hi. destruct (nth_error l i) as [r|] eqn:E.
+  - rewrite forallb_forall in H. specialize (H r (nth_error_In _ _ E)). destruct r as [a|e]; [exists a; reflexivity|discriminate].
+  - apply nth_error_None in E. lia.
+Qed.
+
+Theorem c13_reader_and_writer_derivable : forall s n, c13_ok s n = true ->
+  forall i, (i < List.length (firstn n (derive_all s)))%nat ->
+  exists plan, nth_error (firstn n (derive_all s)) i = Some (Ok plan).
+Proof.
+  intros s n H i Hi. unfold c13_ok in H. apply andb_true_iff in H. destruct H as [_ H].
+  unfold derivable in H. apply andb_true_iff in H. destruct H as [H _]. apply all_ok_nth; assumption.
+Qed.
+Print Assumptions c13_reader_and_writer_derivable.
+
+Theorem c13_plans_well_formed : forall s n, c13_ok s n = true ->
+  wf_env (firstn n (oks empty_plan2 (derive_all s))) = true.
+Proof.
+  intros s n H. unfold c13_ok in H. apply andb_true_iff in H. destruct H as [_ H].
+  unfold derivable in H. apply andb_true_iff in H. destruct H as [_ H]. exact H.
+Qed.
+Print Assumptions c13_plans_well_formed.
+
+(* hence, for the schema it was evaluated on, encode-then-decode is the identity (C01) *)
+Theorem c13_then_roundtrip : forall s n ec, c13_ok s n = true ->
+  let E := firstn n (oks empty_plan2 (derive_all s)) in
+  forall i v bs tl, typed E ec i v = true -> encode (map writer_plan E) i v = Ok bs ->
+  decode (map reader_plan E) ec i (bs ++ tl)%list = Ok (v, tl).
+Proof. intros s n ec H E. apply decode_encode. apply c13_plans_well_formed. exact H. Qed.
+Print Assumptions c13_then_roundtrip.
